@@ -147,7 +147,11 @@ func (r *runner) http(st Step) {
 			parts = append(parts, fmt.Sprintf(`{"jsonrpc":"2.0","id":%s,"method":"h","params":{"tag":%q}}`, id, tag))
 			a["id"] = normID(id)
 		case "note":
-			parts = append(parts, fmt.Sprintf(`{"jsonrpc":"2.0","method":"h","params":{"tag":%q}}`, tag))
+			if m.Var%2 == 1 { // an explicit null id is no id
+				parts = append(parts, fmt.Sprintf(`{"jsonrpc":"2.0","id":null,"method":"h","params":{"tag":%q}}`, tag))
+			} else {
+				parts = append(parts, fmt.Sprintf(`{"jsonrpc":"2.0","method":"h","params":{"tag":%q}}`, tag))
+			}
 		case "inv":
 			switch m.Var % 3 {
 			case 0:
